@@ -175,3 +175,26 @@ Definition s_remove (s : list byte) (i : N) : sout (list byte * list byte) :=
 Definition s_replace_range (s : list byte) (a b : N) (t : list byte) : sout (list byte) :=
   if (a <=? b) && (b <=? N.of_nat (length s)) && is_char_boundary s a && is_char_boundary s b
   then SRet (firstn (N.to_nat a) s ++ t ++ skipn (N.to_nat b) s) else SPanic.
+
+(* ---------- encoding a scalar value (char::encode_utf8), and the char-level operations ---------- *)
+Definition scalar (cp : N) : bool := (cp <? 55296) || ((57343 <? cp) && (cp <=? 1114111)).
+
+Definition encode (cp : N) : list byte :=
+  if cp <? 128 then [cp]
+  else if cp <? 2048 then [192 + cp / 64; 128 + cp mod 64]
+  else if cp <? 65536 then [224 + cp / 4096; 128 + (cp / 64) mod 64; 128 + cp mod 64]
+  else [240 + cp / 262144; 128 + (cp / 4096) mod 64; 128 + (cp / 64) mod 64; 128 + cp mod 64].
+
+(* the scalar value of the well-formed character at the head of bs *)
+Definition decode (bs : list byte) : option N :=
+  match char_len bs, bs with
+  | Some 1%nat, b0 :: _ => Some b0
+  | Some 2%nat, b0 :: b1 :: _ => Some ((b0 - 192) * 64 + (b1 - 128))
+  | Some 3%nat, b0 :: b1 :: b2 :: _ => Some ((b0 - 224) * 4096 + (b1 - 128) * 64 + (b2 - 128))
+  | Some 4%nat, b0 :: b1 :: b2 :: b3 :: _ => Some ((b0 - 240) * 262144 + (b1 - 128) * 4096 + (b2 - 128) * 64 + (b3 - 128))
+  | _, _ => None
+  end.
+
+(* String::push / String::insert(idx, ch) *)
+Definition s_push (s : list byte) (cp : N) : list byte := s ++ encode cp.
+Definition s_insert (s : list byte) (i cp : N) : sout (list byte) := s_insert_str s i (encode cp).
